@@ -168,8 +168,14 @@ static void gen_params(const char *profile, uint64_t seed)
 		P.m_budget = PICK(&rm, 3, 8, 15);
 	} else if(!strcmp(profile, "c20")) {
 		P.stats = 1;
-		P.gvt_period = PICK(&rc, 0, 1, 5, 50, 1000, 100000);
-		P.tmpfile_fail = PICK(&rc, 0, 0, 0, 0, 1, 2, 3);
+		P.gvt_period = PICK(&rc, 0, 0, 1, 5, 50, 1000, 100000);
+		P.tmpfile_fail = PICK(&rc, 0, 0, 0, 0, 0, 0, 1, 2, 3);
+		if(prng_below(&rc, 4) == 0) {
+			P.stop_at = PICK(&rc, 500, 3000, 10000, 30000);
+			P.stop_in_round = PICK(&rc, 0, 1);
+		}
+		if(prng_below(&rc, 5) == 0)
+			P.term_time_q = PICK(&rc, 10, 40, 120);
 	} else if(!strcmp(profile, "c02")) {
 		P.n_ranks = 2 + (int64_t)prng_below(&rc, VERIF_NRANKS > 1 ? VERIF_NRANKS - 1 : 1);
 		P.n_threads = PICK(&rc, 1, 1, 2, 2, 3);
@@ -307,6 +313,8 @@ static int run_forked(const char *replay_out, char *out, size_t outsz, int timeo
 		snprintf(kind, sizeof(kind), "ubsan");
 	snprintf(out, outsz, "RES seed=%lld status=%s prop=C11 cls=%s%s%s hash=0 msg=\"%s\" note=\"\"\n", (long long)P.seed,
 	    timed_out ? "timeout" : "crash", cls, kind[0] ? ":" : "", kind, head);
+	if(replay_out)
+		replay_write(replay_out, out);
 	return 0;
 }
 
